@@ -1,5 +1,96 @@
 import Bifrost.Model.Codec
 import Bifrost.Lemmas.Varint
+import Bifrost.Lemmas.Header
+import Bifrost.Lemmas.ProtoRoundTrip
+import Bifrost.Lemmas.Base58
 /-! Helper lemmas for C10, C15 (ProtoWire round trips, base58, multihash, sign body). -/
 namespace Bifrost
+namespace Codec
+
+/-! ### hash.Hash -/
+
+theorem Hash.unmarshal_marshal (h : Hash) (hlo : -(2 ^ 31) ≤ h.type) (hhi : h.type < 2 ^ 31)
+    (hl : h.digest.length < 2 ^ 63) : Hash.unmarshal h.marshal = some h := by
+  unfold Hash.unmarshal Hash.marshal
+  have := PW.decode_vb (int32ToU64 h.type) h.digest (PW.int32ToU64_lt _ hlo hhi) hl
+  rw [show hashSchema = PW.vbSchema from rfl, this]
+  simp only [PW.vb_lastVarint, PW.vb_lastBytes, PW.toInt32_int32ToU64 _ hlo hhi]
+
+/-! ### crypto.PublicKey / peer.ID -/
+
+theorem marshalPublicKey_eq (raw : Bytes) (h : raw.length = 32) :
+    marshalPublicKey raw = [8, 1, 18, 32] ++ raw := by
+  unfold marshalPublicKey PW.encBytesOpt
+  have hne : raw.isEmpty = false := by
+    cases raw with
+    | nil => simp at h
+    | cons => rfl
+  rw [hne]
+  simp only [Bool.false_eq_true, ↓reduceIte, PW.encBytes, h]
+  rfl
+
+theorem idFromPublicKey_eq (raw : Bytes) (h : raw.length = 32) :
+    idFromPublicKey raw = [0, 36, 8, 1, 18, 32] ++ raw := by
+  unfold idFromPublicKey encodeMultihash
+  rw [marshalPublicKey_eq raw h]
+  have : ([8, 1, 18, 32] ++ raw).length = 36 := by simp [h]
+  rw [this]
+  rfl
+
+theorem unmarshal_marshalPublicKey (raw : Bytes) (h : raw.length = 32) :
+    unmarshalPublicKey (marshalPublicKey raw) = some raw := by
+  unfold unmarshalPublicKey marshalPublicKey
+  have := PW.decode_vb 1 raw (by norm_num) (by omega)
+  rw [show pubKeySchema = PW.vbSchema from rfl, this]
+  simp only [PW.vb_lastVarint, PW.vb_lastBytes]
+  have : PW.toInt32 1 = keyTypeEd25519 := by decide
+  simp [this, h]
+
+theorem decodeMultihash_encode (code : Nat) (digest : Bytes) (hc : code < 2 ^ 64)
+    (hd : digest.length < 2 ^ 64) :
+    decodeMultihash (encodeMultihash code digest) = some (code, digest) := by
+  unfold decodeMultihash encodeMultihash
+  have hne : (Uv.put code ++ Uv.put digest.length ++ digest).isEmpty = false := by
+    simp [Uv.put, Pb.append_ne_nil]
+  rw [hne]
+  simp only [Bool.false_eq_true, ↓reduceIte]
+  rw [List.append_assoc, Uv.decode_put code hc]
+  simp only [List.drop_left']
+  rw [Uv.decode_put _ hd]
+  simp only [List.drop_left', Nat.mod_eq_of_lt hd, Nat.mod_eq_of_lt hc]
+  simp
+
+theorem extract_idFromPublicKey (raw : Bytes) (h : raw.length = 32) :
+    extractPublicKey (idFromPublicKey raw) = some raw := by
+  unfold extractPublicKey idFromPublicKey
+  have hl : (marshalPublicKey raw).length < 2 ^ 64 := by
+    rw [marshalPublicKey_eq raw h]; simp [h]
+  rw [decodeMultihash_encode mhIdentity _ (by decide) hl]
+  simp [unmarshal_marshalPublicKey raw h]
+
+theorem decodeMultihash_ne_nil (b : Bytes) (r : Nat × Bytes) (h : decodeMultihash b = some r) :
+    b ≠ [] := by
+  intro hb
+  subst hb
+  simp [decodeMultihash] at h
+
+theorem idFromBytes_some (b id : Bytes) (h : idFromBytes b = some id) :
+    id = b ∧ ∃ r, decodeMultihash b = some r := by
+  unfold idFromBytes at h
+  split at h
+  · rename_i r hr
+    injection h with h
+    exact ⟨h.symm, r, hr⟩
+  · cases h
+
+theorem idFromBytes_idFromPublicKey (raw : Bytes) (h : raw.length = 32) :
+    idFromBytes (idFromPublicKey raw) = some (idFromPublicKey raw) := by
+  unfold idFromBytes
+  have hl : (marshalPublicKey raw).length < 2 ^ 64 := by
+    rw [marshalPublicKey_eq raw h]; simp [h]
+  have := decodeMultihash_encode mhIdentity (marshalPublicKey raw) (by decide) hl
+  unfold idFromPublicKey
+  rw [this]
+
+end Codec
 end Bifrost
